@@ -23,8 +23,12 @@ const (
 	connTypePrefix = "tconn" // tconn0, tconn1: one factory (and set of supported pairs) per connector
 )
 
-// Signals in the generated graphs (profiles are behind a feature gate).
-var Signals = []string{"logs", "metrics", "traces"}
+// Signals in the generated graphs; Signals4 adds profiles (feature gate
+// service.profilesSupport, checked by config validation only).
+var (
+	Signals  = []string{"logs", "metrics", "traces"}
+	Signals4 = []string{"logs", "metrics", "traces", "profiles"}
+)
 
 // Connector is one configured connector and the signal pairs its factory supports.
 type Connector struct {
@@ -69,6 +73,10 @@ type Extension struct {
 	// Plain: the instance does not implement extensioncapabilities.Dependent at
 	// all (only meaningful without Deps).
 	Plain bool `json:"plain,omitempty"`
+	// PipelineWatcher / ConfigWatcher: the instance implements the capability
+	// (Ready/NotReady, NotifyConfig).
+	PipelineWatcher bool `json:"pipeline_watcher,omitempty"`
+	ConfigWatcher   bool `json:"config_watcher,omitempty"`
 }
 
 // Topology is a complete generated configuration.
@@ -78,7 +86,22 @@ type Topology struct {
 	Exporters  []string    `json:"exporters"`  // configured exporters
 	Connectors []Connector `json:"connectors"`
 	Pipelines  []Pipeline  `json:"pipelines"`
-	Extensions []Extension `json:"extensions,omitempty"` // service::extensions, in this order
+	Extensions []Extension `json:"extensions,omitempty"` // configured extensions
+	// ExtList is service::extensions; it may mention an id more than once (no
+	// validation rejects that).  Empty: the order of Extensions.
+	ExtList []string `json:"ext_list,omitempty"`
+}
+
+// ServiceExtensions returns the service::extensions list.
+func (t Topology) ServiceExtensions() []string {
+	if len(t.ExtList) > 0 {
+		return t.ExtList
+	}
+	out := make([]string, 0, len(t.Extensions))
+	for _, x := range t.Extensions {
+		out = append(out, x.ID)
+	}
+	return out
 }
 
 // Instance keys -------------------------------------------------------------
@@ -446,7 +469,10 @@ func (t Topology) Canon() string {
 	for _, x := range t.Extensions {
 		d := append([]string(nil), x.Deps...)
 		sort.Strings(d)
-		fmt.Fprintf(&b, "\nX %s %v %v", x.ID, d, x.Plain)
+		fmt.Fprintf(&b, "\nX %s %v %v %v %v", x.ID, d, x.Plain, x.PipelineWatcher, x.ConfigWatcher)
+	}
+	if len(t.ExtList) > 0 {
+		fmt.Fprintf(&b, "\nXL %v", t.ExtList)
 	}
 	return b.String()
 }
